@@ -237,6 +237,9 @@ def unit_cross(a):
 
 
 def replay(case, stats):
+    if case["sub"] == "shared-compiler":
+        from . import c07
+        return c07.check_shared_compiler(case, stats)
     if case["sub"] == "cross":
         return check_cross_dialect(case, stats)
     if case["sub"] == "reuse":
@@ -253,6 +256,8 @@ def run(ctx):
     ns = 16
     maxlen = 5 if q else 7
     ctx.units("type-sequences-exhaustive", unit_seq, [{"maxlen": maxlen, "shard": i, "nshards": ns} for i in range(ns)], procs=ns)
+    from . import c07
+    ctx.units("shared-compiler-threads", c07.unit_shared, [{"reps": 10 if q else 100}])
     ctx.units("cross-dialect-shared-keywords", unit_cross, [{"shard": i, "nshards": ns} for i in range(ns)], procs=ns)
     ctx.units("dialects-through-parser", unit_dialects, [{"shard": i, "nshards": ns, "variants": [0, 1] if q else [0, 1, 2, 3, 4, 5]} for i in range(ns)], procs=ns)
     ctx.units("compiler-reuse", unit_reuse, [{"n": 450 if q else 4000, "seed": ctx.seed, "shard": i} for i in range(8 if q else 16)], procs=16)
